@@ -66,6 +66,7 @@ type wkResult struct {
 	idleArrive  uint64
 	fallbacks   uint64
 	inconcl     string
+	backlog     int
 }
 
 // wkFlushRetry writes msg and flushes it; a Flush that gives up with ErrQueueFull (tiny queues: 10 retries of 10 ms) has
@@ -282,6 +283,60 @@ func runWakeupCase(c *checkCtx, cs wkCase) (res wkResult) {
 			break
 		}
 	}
+	// backlog phase: the consumer's event loop is held while the producers enqueue thousands of elements (one wake-up, the
+	// rest find the consumer "working"); once released the consumer has to drain all of them in one go and must not go
+	// idle before the queue is empty
+	if cs.QueueCap >= 8192 && len(res.viol) == 0 && res.inconcl == "" && atomic.LoadUint32(&abort) == 0 {
+		const backlog = 6000
+		release := make(chan struct{})
+		parked := make(chan struct{})
+		loopRun(func() { close(parked); <-release })
+		select {
+		case <-parked:
+			per := make([]int, len(streams))
+			var wg sync.WaitGroup
+			for i := range streams {
+				per[i] = backlog / len(streams)
+				wg.Add(1)
+				go func(i int) {
+					defer wg.Done()
+					msg := make([]byte, cs.MsgSize)
+					for m := 0; m < per[i]; m++ {
+						if !wkFlushRetry(streams[i].cl, msg, &res.flushErrors) {
+							return
+						}
+					}
+				}(i)
+			}
+			wg.Wait()
+			res.backlog = int(streams[0].cl.session.queueManager.sendQueue.size())
+			close(release)
+			// read every echo back
+			for i := range streams {
+				wg.Add(1)
+				go func(i int) {
+					defer wg.Done()
+					for m := 0; m < per[i]; m++ {
+						streams[i].cl.SetReadDeadline(time.Now().Add(8 * time.Second))
+						if _, err := streams[i].cl.BufferReader().ReadBytes(cs.MsgSize); err != nil {
+							atomic.StoreUint32(&abort, 1)
+							return
+						}
+						streams[i].cl.BufferReader().ReleasePreviousRead()
+						atomic.AddInt64(&res.roundTrips, 1)
+					}
+				}(i)
+			}
+			wg.Wait()
+			judge(fmt.Sprintf("the drain of a backlog of %d elements", res.backlog))
+			if atomic.LoadUint32(&abort) != 0 && len(res.viol) == 0 {
+				res.inconcl = "echoes of the backlog phase did not all come back although nothing is stranded"
+			}
+		case <-time.After(10 * time.Second):
+			close(release)
+			res.inconcl = "event loop could not be parked for the backlog phase"
+		}
+	}
 	res.pollSent = atomic.LoadUint64(&p.client.stats.sendPollingEventCount) + atomic.LoadUint64(&p.server.stats.sendPollingEventCount)
 	if k != nil {
 		res.sig = k.signature()
@@ -301,6 +356,9 @@ func genWakeupCase(c *checkCtx, idx int) wkCase {
 	rng := caseRand(c.seed, 200000+idx)
 	cs := wkCase{Idx: idx}
 	cs.QueueCap = []uint32{2, 4, 8, 64, 8192}[rng.Intn(5)]
+	if idx%8 == 0 {
+		cs.QueueCap = 8192 // guarantees backlog phases (they need the default-sized queue) in every tier
+	}
 	cs.Workers = []int{1, 2, 4, 8, 16}[rng.Intn(5)]
 	cs.Streams = cs.Workers * (1 + rng.Intn(4))
 	cs.Bursts = c.pick(120, 400)
@@ -344,6 +402,10 @@ func checkWakeup(c *checkCtx) {
 		c.count("bursts skipped (precondition not established)", int64(res.skipped))
 		c.count("polling events sent", int64(res.pollSent))
 		c.count("echo round trips", res.roundTrips)
+		if res.backlog > 0 {
+			c.count("backlog phases (consumer held, then one drain)", 1)
+			c.count("elements queued while the consumer was held", int64(res.backlog))
+		}
 		c.count("flush/read errors", res.flushErrors)
 		c.count("hook transitions idle<->arrive", int64(res.cross))
 		c.count("markNotWorking found new element after clearing the flag", int64(res.idleArrive))
